@@ -31,7 +31,7 @@ def trace_modules(prefixes):
     return vrt.trace_functions(fns)
 
 
-def run_pair(devs, budgets, resolve=None, a=None, b=None, prop="C00", warm=True):
+def run_pair(devs, budgets, resolve=None, a=None, b=None, prop="C00", warm=True, alone=None, label="thread-pair", part="pair"):
     """resolve = "module:function"; function(desc) -> zero-argument callable returning a JSON-able result."""
     box = {}
     if isinstance(resolve, str):
@@ -50,6 +50,8 @@ def run_pair(devs, budgets, resolve=None, a=None, b=None, prop="C00", warm=True)
             if fresh:
                 fresh()
             box["alone"].append(_safe(resolve(d)))
+    else:
+        box["alone"] = list(alone)
     if fresh:
         fresh()  # objects the two operations share by design (one catalogue container used by all protocol threads) are new for every execution
     fa, fb = resolve(a), resolve(b)
@@ -70,20 +72,26 @@ def run_pair(devs, budgets, resolve=None, a=None, b=None, prop="C00", warm=True)
 
     sched = vrt.run(driver, devs, budgets, max_steps=400000, max_time=1e6, line_points=True)
     out = {"trace": sched.trace, "v": []}
-    case = {"part": "pair", "a": a, "b": b}
+    case = {"part": part, "a": a, "b": b}
     if sched.harness_failure or sched.driver_exception:
         out["harness"] = (sched.harness_failure or sched.driver_exception)[-1000:]
         out["obs"] = None
         return out
     if sched.outcome != "done":
-        out["v"].append((f"{prop}|thread-pair|execution-{sched.outcome}", {"case": case, "info": sched.deadlock_info}))
+        out["v"].append((f"{prop}|{label}|execution-{sched.outcome}", {"case": case, "info": sched.deadlock_info}))
         out["obs"] = sched.outcome
         return out
+    if not warm:
+        import json  # noqa: PLC0415
+
+        from mc.report import jsonable  # noqa: PLC0415
+
+        box["together"] = json.loads(json.dumps(jsonable(box["together"])))  # the alone results crossed a pipe as JSON
     out["obs"] = {"same": box["together"] == box["alone"]}
     for i, nm in enumerate(("a", "b")):
         if box["together"][i] != box["alone"][i]:
             kind = "raises" if isinstance(box["together"][i], dict) and "raised" in box["together"][i] else "differs"
-            out["v"].append((f"{prop}|thread-pair|result-{kind}-from-running-alone|{_kind(case[nm])}+{_kind(case['b' if nm == 'a' else 'a'])}",
+            out["v"].append((f"{prop}|{label}|result-{kind}-from-running-alone|{_kind(case[nm])}+{_kind(case['b' if nm == 'a' else 'a'])}",
                              {"case": case, "which": nm, "alone": _short(box["alone"][i]), "together": _short(box["together"][i])}))
     return out
 
